@@ -14,7 +14,8 @@ inductive CStep where
   | blobRest                    -- octets up to the end of the RDATA (hex / base64 / base32 / any / octet fields)
   | blobSized (sizeIdx : Nat)   -- octets whose number is the value of an earlier field
   | txt                         -- character-strings up to the end of the RDATA
-  | other                       -- a primitive outside the algebra (SVCB, OPT, APL, NSEC bitmap, gateway, name lists)
+  | nsec                        -- type bitmap up to the end of the RDATA (packDataNsec / unpackDataNsec)
+  | other                       -- a primitive outside the algebra (SVCB, OPT, APL, gateway, name lists)
 deriving Repr, DecidableEq
 
 end Dns
